@@ -16,7 +16,10 @@ TRun   == /\ Is("Run") /\ Adv /\ UNCHANGED <<prog, monad>>
              /\ Ev.ok = r.ok /\ Ev.v = r.v /\ Ev.err = r.e
              /\ Ev.log = r.log
 TEnd   == Is("End") /\ Adv /\ UNCHANGED <<prog, monad>>
-TNext  == TReset \/ TRun \/ TEnd
+\* the unit is total (EffectSpec!U(x) is a success for every x): also for the nil value of a slice, pointer, map, interface,
+\* func or chan payload type, for Map to nil, and FlatMap(unit(nil), f) calls f with nil (left identity)
+TUnitNil == Is("UnitNil") /\ Adv /\ UNCHANGED <<prog, monad>> /\ Ev.ok /\ Ev.called
+TNext  == TReset \/ TRun \/ TEnd \/ TUnitNil
 TSpec  == TInit /\ [][TNext]_tvars
 HighWater == TLCSet(1, IF TLCGet(1) < l THEN l ELSE TLCGet(1))
 Accepted == /\ PrintT(<<"HIGHWATER", TLCGet(1), Len(Trace)>>)
